@@ -586,6 +586,28 @@ func ibNear(r *rand.Rand, s ibShape) ibShape {
 	return s
 }
 
+// ibTwins returns shapes that carry the numbers of s in other fields: (factor 1, offset k) and
+// (factor k, offset 0); minimum / maximum exchanged with offset / factor; defaults on one side.
+func ibTwins(r *rand.Rand, s ibShape) []ibShape {
+	k := pick(r, 2, 3, 100, 0.5, -1, 255)
+	a, b := s, s
+	switch r.Intn(4) {
+	case 0:
+		a.f, a.o = 1, k
+		b.f, b.o = k, 0
+	case 1:
+		a.f, a.o = k, 1
+		b.f, b.o = 1, k
+	case 2:
+		a.mx, a.f = k, 1
+		b.mx, b.f = 1, k
+	default:
+		a.mn, a.mx, a.f, a.o = 0, k, 1, 0
+		b.mn, b.mx, b.f, b.o = 0, 0, k, 0
+	}
+	return []ibShape{a, b}
+}
+
 func ibRndVals(r *rand.Rand, n int, maxID uint32) []ibVal {
 	var vs []ibVal
 	usedI := map[uint32]bool{}
@@ -678,6 +700,11 @@ func ibGenFile(r *rand.Rand, tier string) *ibFile {
 	}
 	// type shapes of the file
 	shapes := []ibShape{ibRndShape(r), ibRndShape(r), ibRndShape(r)}
+	if r.Intn(3) == 0 {
+		// twins: the same numbers, moved between neighbouring fields of the type key (a key that
+		// leaves out defaults, or glues fields without a separator, confuses exactly these)
+		shapes = append(shapes, ibTwins(r, shapes[0])...)
+	}
 	// messages
 	nm := r.Intn(5)
 	idPerm := r.Perm(len(ibMsgIDs))
